@@ -30,10 +30,14 @@ func Str(r *rand.Rand, hostile bool) string {
 }
 
 func hexStr(r *rand.Rand, n int) string {
-	const h = "0123456789abcdef"
+	// hexadecimal digits in either case are legal digests
+	h := "0123456789abcdef"
+	if r.Intn(3) == 0 {
+		h = "0123456789abcdefABCDEF"
+	}
 	b := make([]byte, n)
 	for i := range b {
-		b[i] = h[r.Intn(16)]
+		b[i] = h[r.Intn(len(h))]
 	}
 	return string(b)
 }
